@@ -176,6 +176,19 @@ let do_recomp (op : string) (a : string list) : string =
        | None -> "err"
        | Some (None, _) -> "err"
        | Some (Some b, c) -> name_of c ^ ":" ^ (if b = stored then "same" else "changed"))
+  | "ovl", (_k :: rest) ->
+      (* sources as (compression, payload id or -); payloads are the id's decimal digits *)
+      let rec pairs = function c :: t :: r -> (comp_of c, if t = "-" then None else Some t) :: pairs r | _ -> [] in
+      let srcs = pairs rest in
+      let bytes_of_id (t : string) = List.init (String.length t) (fun i -> n_of_int (Char.code t.[i])) in
+      let id_of_bytes (b : n list) = String.concat "" (List.map (fun c -> String.make 1 (Char.chr (int_of_n c))) b) in
+      let stored = List.map (fun (c, t) -> (c, match t with None -> None | Some t -> Some (compress gzc brc c (bytes_of_id t)))) srcs in
+      let d = declared (List.map fst srcs) in
+      let ans = match overlay_answer gzc brc stored with
+        | None -> "err"
+        | Some None -> "-"
+        | Some (Some b) -> (match decompress gzc brc d b with Some p -> id_of_bytes p | None -> "?") in
+      Printf.sprintf "%s L=%s S=%s" (name_of d) ans ans
   | _ -> "?recomp-args"
 
 (* ---------- C05 / C07 http ---------- *)
@@ -396,6 +409,40 @@ let do_fmt (op : string) (args : string list) : string =
   | "idcoord", [i] -> (match tile_id_to_coord (z_of_string i) with Some ((z, x), y) -> Printf.sprintf "%d %s %s" (int_of_nat z) (string_of_z x) (string_of_z y) | None -> "err")
   | "pmdir.ser", [es] -> hex_of_bytes (serialize (entries_of es))
   | "pmdir.de", [h] -> (match deserialize pm_arith_variant (bytes_of_hex h) with Ok es -> "ok " ^ fmt_entries es | Err -> "err" | Panic -> "panic" | Overflow -> "overflow")
+  | "pmdir.asdir", [target; k; n; a; st; m; o0; g] ->
+      (* entries from the generator both sides implement (harness/src/pmcorr.rs: seq_entries) *)
+      let n = int_of_string n and a = int_of_string a and st = int_of_string st and m = int_of_string m and o0 = int_of_string o0 and g = int_of_string g in
+      let es = ref [] and off = ref o0 and prevlen = ref 0 in
+      for i = 0 to n - 1 do
+        if i > 0 then off := !off + !prevlen + (if i mod 5 = 0 then g else 0);
+        let len = 1 + (i * 13) mod m in
+        es := { e_id = n_of_int (a + i * st); e_off = n_of_int !off; e_len = n_of_int len; e_run = n_of_int (1 + (i * 7) mod 3) } :: !es;
+        prevlen := len
+      done;
+      let es = List.rev !es in
+      let hash (b : n list) = let h = ref 7 in List.iter (fun x -> h := (!h * 31 + int_of_n x) mod 1000000007) b; Printf.sprintf "%d:%d" (List.length b) !h in
+      (match as_directory (n_of_int 16384) (n_of_string target) [nat_of_int' (int_of_string k)] es with
+       | None -> "none"
+       | Some d ->
+           Printf.sprintf "root=%s leaves=%s ptrs=%s cuts=%s" (hash (serialize d.d_root)) (hash d.d_leaves_bytes)
+             (if d.d_leaves = [] then "-" else fmt_entries d.d_root)
+             (if d.d_leaves = [] then "-" else String.concat "," (List.map (fun (l, _) -> string_of_int (List.length l)) d.d_leaves)))
+  | "vt.bdef", [h] ->
+      let soft = function Ok _ -> "" | Err -> "err" | Panic -> "panic" | Overflow -> "overflow" in
+      (match bdef_from_blob (bytes_of_hex h) with
+       | Ok d ->
+           let re = (match bdef_as_blob d with Ok b -> hex_of_bytes b | o -> soft o) in
+           "ok " ^ String.concat " " (List.map string_of_n [d.bd_z; d.bd_x; d.bd_y; d.bd_gx0; d.bd_gy0; d.bd_gx1; d.bd_gy1; d.bd_toff; d.bd_tlen; d.bd_ioff; d.bd_ilen]) ^ " " ^ re
+       | o -> soft o)
+  | "vt.bnew", [z; x0; y0; x1; y1; toff; tlen; ilen] ->
+      let d = bdef_new (n_of_string z) (n_of_string x0) (n_of_string y0) (n_of_string x1) (n_of_string y1) in
+      let d = { d with bd_toff = n_of_string toff; bd_tlen = n_of_string tlen; bd_ioff = N.add (n_of_string toff) (n_of_string tlen); bd_ilen = n_of_string ilen } in
+      (match bdef_as_blob d with Ok b -> hex_of_bytes b | Err -> "err" | Panic -> "panic" | Overflow -> "overflow")
+  | "vt.tidx", [add; h] ->
+      let fmt l = if l = [] then "-" else String.concat "," (List.map (fun (o, n) -> string_of_n o ^ ":" ^ string_of_n n) l) in
+      (match tidx_from_blob (bytes_of_hex h) with
+       | Ok idx -> "ok " ^ fmt idx ^ " " ^ (match tidx_add_offset (n_of_string add) idx with Ok l -> fmt l | Err -> "err" | Panic -> "panic" | Overflow -> "overflow")
+       | Err -> "err" | Panic -> "panic" | Overflow -> "overflow")
   | "pmdir.find", [es; t] -> (match find_tile pm_arith_variant (entries_of es) (n_of_string t) with Ok (Some e) -> fmt_entry e | Ok None -> "none" | Err -> "err" | Panic -> "panic" | Overflow -> "overflow")
   | "vtindex", [sl] ->
       let slot t = if t = "-" then None
@@ -476,7 +523,7 @@ let dispatch (op : string) (args : string list) : string =
   | "cache" -> do_cache args
   | "pipe" -> do_pipe args
   | "acc" | "chunks" -> do_stream op args
-  | "recomp" | "optc" -> do_recomp op args
+  | "recomp" | "optc" | "ovl" -> do_recomp op args
   | "tilepath" | "static" -> do_http op args
   | "vpl" -> do_vpl args
   | "vpl.render" -> do_vpl_render args
@@ -529,7 +576,7 @@ let dispatch (op : string) (args : string list) : string =
   | "geo.axis" -> (match args with
       | [s; g; n; uw; ue] -> let (a, b) = axis_box geo_guard_variant (z_of_string s) (z_of_string g) (z_of_string n) (z_of_string uw) (z_of_string ue) in string_of_z a ^ " " ^ string_of_z b
       | _ -> "?geo-args")
-  | "tileid" | "idcoord" | "pmdir.ser" | "pmdir.de" | "pmdir.find" | "vtblocks" | "vtindex" -> do_fmt op args
+  | "tileid" | "idcoord" | "pmdir.ser" | "pmdir.de" | "pmdir.find" | "pmdir.asdir" | "vt.bdef" | "vt.bnew" | "vt.tidx" | "vtblocks" | "vtindex" -> do_fmt op args
   | "c12.vt" | "c12.pm" | "c12.vthdr" | "c12.pmhdr" -> do_c12 op args
   | "varint" | "svarint" | "mvt.dec" | "mvt.rt" | "mvt.merge" | "mvt.upd" -> do_mvt op args
   | _ when String.length op > 5 && String.sub op 0 5 = "json." -> do_json op args
